@@ -134,6 +134,16 @@ class SequentialPlan(plans.plan.Plan):
         # all_required is the mapping from a grounded fluent to all the action instances that read the value of that
         # fluent in their preconditions (or in the condition of their conditional effects)
         all_required: Dict[FNode, List["plans.plan.ActionInstance"]] = {}
+        # state invariants couple the fluents they mention: an action instance that writes one of them
+        # must be ordered w.r.t. every instance writing another one (the invariant is re-checked after it)
+        invariant_fluents: List[Set[FNode]] = []
+        for inv in getattr(problem, "state_invariants", []):
+            invariant_fluents.append(
+                set(
+                    simp.simplify(f)
+                    for f in fve.get(eqr.remove_quantifiers(inv, problem))
+                )
+            )
         # graph stores the information gathered through the process
         graph = nx.DiGraph()
         for action_instance in self.actions:
@@ -178,6 +188,16 @@ class SequentialPlan(plans.plan.Plan):
                 required_fluents.add(
                     simp.simplify(subs.substitute(lifted_fluent, assignments))
                 )
+
+            if invariant_fluents:
+                written = set(
+                    simp.simplify(subs.substitute(eff.fluent, assignments))
+                    for effect in inst_action.effects
+                    for eff in effect.expand_effect(problem)
+                )
+                for inv_fluents in invariant_fluents:
+                    if written & inv_fluents:
+                        required_fluents |= inv_fluents
 
             # for every required fluent, add this action instance to the list of action instances that requires this fluent
             # and order the current action instance after the last modifier of the fluent
